@@ -241,7 +241,14 @@ theorem step_master (x1 x2 x3 x4 : ℝ) (hp : ParamsOk x1 x3 x4) (st : State ℝ
     ∃ a b c : ℝ,
       (step x1 x2 x3 (uh1 x4 ⌈x4⌉₊) (uh2 x4 ⌈2 * x4⌉₊) st pe).2.runoff +
         stor (step x1 x2 x3 (uh1 x4 ⌈x4⌉₊) (uh2 x4 ⌈2 * x4⌉₊) st pe).1 = stor st + a + b + c ∧
-      a ≤ pe.1 ∧ (pe.2 = 0 → a = pe.1) ∧ (x2 ≤ 0 → b ≤ 0 ∧ c ≤ 0) ∧ (x2 = 0 → b = 0 ∧ c = 0) := by
+      a ≤ pe.1 ∧ (pe.2 = 0 → a = pe.1) ∧ (x2 ≤ 0 → b ≤ 0 ∧ c ≤ 0) ∧ (x2 = 0 → b = 0 ∧ c = 0) ∧
+      b ≤ max 0 (step x1 x2 x3 (uh1 x4 ⌈x4⌉₊) (uh2 x4 ⌈2 * x4⌉₊) st pe).2.ech ∧
+      c ≤ max 0 (step x1 x2 x3 (uh1 x4 ⌈x4⌉₊) (uh2 x4 ⌈2 * x4⌉₊) st pe).2.ech ∧
+      (0 ≤ x2 → 0 ≤ (step x1 x2 x3 (uh1 x4 ⌈x4⌉₊) (uh2 x4 ⌈2 * x4⌉₊) st pe).2.ech ∧
+        b = (step x1 x2 x3 (uh1 x4 ⌈x4⌉₊) (uh2 x4 ⌈2 * x4⌉₊) st pe).2.ech ∧
+        c = (step x1 x2 x3 (uh1 x4 ⌈x4⌉₊) (uh2 x4 ⌈2 * x4⌉₊) st pe).2.ech) ∧
+      (step x1 x2 x3 (uh1 x4 ⌈x4⌉₊) (uh2 x4 ⌈2 * x4⌉₊) st pe).2.ech ≤
+        (step x1 x2 x3 (uh1 x4 ⌈x4⌉₊) (uh2 x4 ⌈2 * x4⌉₊) st pe).2.qd := by
   obtain ⟨hS0, hS1, hR0, hR1, hq1, hq9, hsh9, hsh1⟩ := hst
   obtain ⟨hP, hE⟩ := hpe
   have hx4 := hp.x4pos
@@ -299,9 +306,25 @@ theorem step_master (x1 x2 x3 x4 : ℝ) (hp : ParamsOk x1 x3 x4) (st : State ℝ
     linarith
   have hc1 : x2 = 0 → qd - Q1 = 0 := by
     intro h; have := hech1 h; rw [hqd, max_eq_right (by linarith)]; linarith
+  have hbm : r2 - st.R - Q9 ≤ max 0 ech := by
+    have h1 : (0 : ℝ) ≤ max 0 ech := le_max_left _ _
+    have h2 : ech ≤ max 0 ech := le_max_right _ _
+    have : r2 ≤ st.R + Q9 + max 0 ech := max_le (by linarith) (by linarith)
+    linarith
+  have hcm : qd - Q1 ≤ max 0 ech := by
+    have h1 : (0 : ℝ) ≤ max 0 ech := le_max_left _ _
+    have h2 : ech ≤ max 0 ech := le_max_right _ _
+    have : qd ≤ Q1 + max 0 ech := max_le (by linarith) (by linarith)
+    linarith
+  have hpos : 0 ≤ x2 → 0 ≤ ech ∧ r2 - st.R - Q9 = ech ∧ qd - Q1 = ech := by
+    intro h
+    have he : 0 ≤ ech := mul_nonneg h hpow
+    refine ⟨he, ?_, ?_⟩
+    · rw [hr2, max_eq_right (by linarith)]; ring
+    · rw [hqd, max_eq_right (by linarith)]; ring
   refine ⟨⟨by linarith, by linarith, by linarith, by linarith, shift_nonneg _ hnn1, shift_nonneg _ hnn9, ?_, ?_⟩,
     g1, hqd0, trivial, prod.1 + prod.2.2 - prod.2.1, r2 - st.R - Q9, qd - Q1, ?_, p6, p7,
-    fun h => ⟨hb0 h, hc0 h⟩, fun h => ⟨hb1 h, hc1 h⟩⟩
+    fun h => ⟨hb0 h, hc0 h⟩, fun h => ⟨hb1 h, hc1 h⟩, hbm, hcm, hpos, ?_⟩
   · rw [shift_length _ (by omega), hlen9, hsh9]
   · rw [shift_length _ (by omega), hlen1, hsh1]
   · have e9 : (shift q9a).sum = st.q9.sum + pr * 0.9 - Q9 := by linarith
@@ -309,6 +332,8 @@ theorem step_master (x1 x2 x3 x4 : ℝ) (hp : ParamsOk x1 x3 x4) (st : State ℝ
     rw [e9, e1]
     have := split_sum
     have hsplit : pr * 0.9 + pr * 0.1 = pr := by rw [← mul_add, split_sum, mul_one]
+    linarith
+  · have : Q1 + ech ≤ qd := le_max_right _ _
     linarith
 
 /-! ### whole runs -/
@@ -326,6 +351,41 @@ theorem step_budget (x1 x2 x3 x4 : ℝ) (hp : ParamsOk x1 x3 x4) (hx2 : x2 ≤ 0
   obtain ⟨hb, hc⟩ := h8 hx2
   exact ⟨h1, by linarith, by linarith, h4, h2, h3⟩
 
+/-- **any exchange coefficient**: the one-day budget with the water IMPORTED by a positive groundwater exchange on the
+right-hand side. The exchange term `ech = x2·(R/x3)^3.5` enters twice (routing store and direct branch), so at most
+`2·max(0, ech)` is imported per day. -/
+theorem step_budget_exchange (x1 x2 x3 x4 : ℝ) (hp : ParamsOk x1 x3 x4) (st : State ℝ) (pe : ℝ × ℝ)
+    (hst : Inv x1 x3 x4 st) (hpe : 0 ≤ pe.1 ∧ 0 ≤ pe.2) :
+    Inv x1 x3 x4 (step x1 x2 x3 (uh1 x4 ⌈x4⌉₊) (uh2 x4 ⌈2 * x4⌉₊) st pe).1 ∧
+    ((step x1 x2 x3 (uh1 x4 ⌈x4⌉₊) (uh2 x4 ⌈2 * x4⌉₊) st pe).2.runoff -
+        2 * max 0 (step x1 x2 x3 (uh1 x4 ⌈x4⌉₊) (uh2 x4 ⌈2 * x4⌉₊) st pe).2.ech) +
+      stor (step x1 x2 x3 (uh1 x4 ⌈x4⌉₊) (uh2 x4 ⌈2 * x4⌉₊) st pe).1 ≤ pe.1 + stor st ∧
+    OutOk (step x1 x2 x3 (uh1 x4 ⌈x4⌉₊) (uh2 x4 ⌈2 * x4⌉₊) st pe).2 := by
+  obtain ⟨h1, h2, h3, h4, a, b, c, h5, h6, _, _, _, hb, hc, _⟩ := step_master x1 x2 x3 x4 hp st hst pe hpe
+  exact ⟨h1, by linarith, by linarith, h4, h2, h3⟩
+
+/-- **gaining catchment, zero PET**: for `x2 ≥ 0` the one-day balance closes exactly once the imported water
+`2·ech` (`ech ≥ 0`) is counted as an input. -/
+theorem step_closed_exchange (x1 x2 x3 x4 : ℝ) (hp : ParamsOk x1 x3 x4) (hx2 : 0 ≤ x2) (st : State ℝ) (pe : ℝ × ℝ)
+    (hst : Inv x1 x3 x4 st) (hpe : 0 ≤ pe.1 ∧ pe.2 = 0) :
+    Inv x1 x3 x4 (step x1 x2 x3 (uh1 x4 ⌈x4⌉₊) (uh2 x4 ⌈2 * x4⌉₊) st pe).1 ∧
+    ((step x1 x2 x3 (uh1 x4 ⌈x4⌉₊) (uh2 x4 ⌈2 * x4⌉₊) st pe).2.runoff -
+        2 * (step x1 x2 x3 (uh1 x4 ⌈x4⌉₊) (uh2 x4 ⌈2 * x4⌉₊) st pe).2.ech) +
+      stor (step x1 x2 x3 (uh1 x4 ⌈x4⌉₊) (uh2 x4 ⌈2 * x4⌉₊) st pe).1 = pe.1 + stor st := by
+  obtain ⟨h1, _, _, _, a, b, c, h5, _, h7, _, _, _, _, hpos, _⟩ :=
+    step_master x1 x2 x3 x4 hp st hst pe ⟨hpe.1, by rw [hpe.2]⟩
+  obtain ⟨_, hb, hc⟩ := hpos hx2
+  have := h7 hpe.2
+  exact ⟨h1, by linarith⟩
+
+/-- the exchange term reaches the outlet the same day through the direct branch: `ech ≤ Qd ≤ runoff` (any x2) -/
+theorem step_runoff_ge_ech (x1 x2 x3 x4 : ℝ) (hp : ParamsOk x1 x3 x4) (st : State ℝ) (pe : ℝ × ℝ)
+    (hst : Inv x1 x3 x4 st) (hpe : 0 ≤ pe.1 ∧ 0 ≤ pe.2) :
+    (step x1 x2 x3 (uh1 x4 ⌈x4⌉₊) (uh2 x4 ⌈2 * x4⌉₊) st pe).2.ech ≤
+      (step x1 x2 x3 (uh1 x4 ⌈x4⌉₊) (uh2 x4 ⌈2 * x4⌉₊) st pe).2.runoff := by
+  obtain ⟨_, h2, _, h4, _, _, _, _, _, _, _, _, _, _, _, hq⟩ := step_master x1 x2 x3 x4 hp st hst pe hpe
+  linarith
+
 /-- without any hypothesis on x2: the invariant and the output facts (a positive x2 imports groundwater, so
 only the budget needs x2 ≤ 0) -/
 theorem step_inv (x1 x2 x3 x4 : ℝ) (hp : ParamsOk x1 x3 x4) (st : State ℝ) (pe : ℝ × ℝ)
@@ -341,7 +401,7 @@ theorem step_closed (x1 x3 x4 : ℝ) (hp : ParamsOk x1 x3 x4) (st : State ℝ) (
     Inv x1 x3 x4 (step x1 0 x3 (uh1 x4 ⌈x4⌉₊) (uh2 x4 ⌈2 * x4⌉₊) st pe).1 ∧
     (step x1 0 x3 (uh1 x4 ⌈x4⌉₊) (uh2 x4 ⌈2 * x4⌉₊) st pe).2.runoff +
       stor (step x1 0 x3 (uh1 x4 ⌈x4⌉₊) (uh2 x4 ⌈2 * x4⌉₊) st pe).1 = pe.1 + stor st := by
-  obtain ⟨h1, _, _, _, a, b, c, h5, _, h7, _, h9⟩ :=
+  obtain ⟨h1, _, _, _, a, b, c, h5, _, h7, _, h9, _⟩ :=
     step_master x1 0 x3 x4 hp st hst pe ⟨hpe.1, by rw [hpe.2]⟩
   obtain ⟨hb, hc⟩ := h9 rfl
   have := h7 hpe.2
